@@ -82,7 +82,7 @@ SPEC = {
     # C10(b): besides its own cursor model (match) C10 re-audits the in-bounds / totality theorems that the other properties
     # proved about the manual index and iterator cores named in C10's anchors (they live with the property that models the core)
     'lean_modules': ['AITB.Props.C10', 'AITB.Props.C20', 'AITB.Props.C11Traces', 'AITB.Props.C12Interp', 'AITB.Props.C12InterpValue', 'AITB.Props.C12Prune', 'AITB.Props.C12PruneStrong', 'AITB.Props.C08Dense',
-                     'AITB.Props.C08', 'AITB.Props.C08Vose', 'AITB.Props.C18', 'AITB.Props.C14', 'AITB.Props.C14c', 'AITB.Props.C19', 'AITB.Props.C17'],
+                     'AITB.Props.C08', 'AITB.Props.C08Vose', 'AITB.Props.C18', 'AITB.Props.C14', 'AITB.Props.C14c', 'AITB.Props.C19', 'AITB.Props.C17', 'AITB.Props.C20h', 'AITB.Props.C06', 'AITB.Props.C06Factored', 'AITB.Props.C08Models', 'AITB.Props.C04', 'AITB.Props.C09a'],
     'theorems': ['AITB.Cursor.matchLoop_total', 'AITB.Cursor.match_no_oob', 'AITB.Cursor.matchOrig_oob_witness', 'AITB.Cursor.uses_subset_provides',
                  'AITB.Trie.trie_cursor_refines_spec', 'AITB.Trie.applyCursor_eq',                      # Trie::applyFilters k-way cursor loop, getAllIds/size/erase
                  'AITB.Learn.updateTraces_spec', 'AITB.Learn.updateTraces_nodup',                        # swap-and-pop trace loops (OffPolicyBase, SARSAL)
@@ -92,7 +92,11 @@ SPEC = {
                  'AITB.Sampling.alias_in_range', 'AITB.Sampling.vose_fixed_alias_in_range',              # samplers return an index inside the support
                  'AITB.Cassandra.parser_total', 'AITB.Cassandra.parse_writes_in_bounds', 'AITB.Cassandra.writes_offset_lt_allocated',
                  'AITB.Factored.pie_yields_exactly', 'AITB.Factored.toIndex_lt',
-                 'AITB.Tree.returned_action_valid', 'AITB.Codec.fromTriplets_valid'],
+                 'AITB.Tree.returned_action_valid', 'AITB.Codec.fromTriplets_valid',
+                 'AITB.IndexMap.vals_defined', 'AITB.IndexMap.walkSub_eq_vals', 'AITB.IndexMap.walkMinus_eq', 'AITB.IndexMap.minusAsFound_reads_end',   # every IndexMap iterator access path stays inside the id list
+                 'AITB.MS.coop_rows_read', 'AITB.MS.coop_reward_in_range', 'AITB.MS.discretize_lt',           # CooperativeModel row ids inside their matrices; AMDP bucket index
+                 'AITB.Sampling.coopSampleS_in_range', 'AITB.Sampling.vose_sampler_in_range',
+                 'AITB.Plan.follow_in_range', 'AITB.Pol.sampleRow_lt'],
     'harness': 'harness/c10.cpp',
     'extra_cases': _all_cases,
     'level': 'exploration',
